@@ -166,12 +166,22 @@ impl Property for C06 {
                     // checkpoint is taken at this instant); messages in flight keep arriving afterwards
                     let snap: std::collections::HashMap<String, ReplicatedValue> = nodes[*node].state.snapshot_state().await.into_iter().collect();
                     let fresh = Node::new(*node as u64 + 1, level, &clock);
-                    fresh.state.apply_recovered_state(Some(snap), vec![]);
+                    // every other restart rebuilds the node from a replayed log instead (WAL / segment replay: the same
+                    // state arrives as a sequence of the node's own persisted deltas, through the remote-delta path)
+                    let from_log = c.len() % 2 == 0;
+                    if from_log {
+                        let me = redis_sim::replication::lattice::ReplicaId::new(*node as u64 + 1);
+                        let mut ds: Vec<ReplicationDelta> = snap.into_iter().map(|(k, v)| ReplicationDelta::new(k, v, me)).collect();
+                        ds.sort_by(|a, b| a.key.cmp(&b.key));
+                        fresh.state.apply_recovered_state(None, ds);
+                    } else {
+                        fresh.state.apply_recovered_state(Some(snap), vec![]);
+                    }
                     let _ = fresh.snapshot().await;
                     nodes[*node] = fresh;
-                    *o.faults.entry("node_restart_from_checkpoint").or_insert(0) += 1;
+                    *o.faults.entry(if from_log { "node_restart_from_replayed_log" } else { "node_restart_from_checkpoint" }).or_insert(0) += 1;
                     *o.probes.entry("node_restarted").or_insert(0) += 1;
-                    if trace { o.log.push(format!("node{}: restarts from a checkpoint of its state", node + 1)); }
+                    if trace { o.log.push(format!("node{}: restarts from {}", node + 1, if from_log { "a replayed log of its own deltas" } else { "a checkpoint of its state" })); }
                 } else { net.heal(); if trace { o.log.push("net: heal".to_string()); } }
             }
             // ---- faults stop: heal, drain, redeliver, then hand every delta to every node
